@@ -154,12 +154,13 @@ Definition tx_ok (d : str) (rs : list str) (cont out : list ev) : bool :=
 Section Domain.
   Variable accepts : str -> bool.
   Variable delivers : str -> str -> bool.
+  Variable over : str -> str -> bool.
   Fixpoint cmd_lines_ascii (c : cfg) (s : st) (m : mode) (ls : list str) : bool :=
     match ls with
     | [] => true
     | l :: ls' =>
         (match m with MCmd => all_ascii l | MData _ => true end) &&
-        (let '(s', m', _, q) := step accepts delivers c s m l in
+        (let '(s', m', _, q) := step accepts delivers over c s m l in
          if q then true else cmd_lines_ascii c s' m' ls')
     end.
 End Domain.
